@@ -390,7 +390,14 @@ var ops = []opFn{
 	},
 	func(wk *worker) (string, string) {
 		var o zap.Option
-		switch wk.g.Intn(5) {
+		switch wk.g.Intn(6) {
+		case 5:
+			// a caller skip beyond the end of the stack: the caller lookup fails (reported on the error
+			// output) and the entry is still logged
+			l := wk.logger().WithOptions(zap.AddCaller(), zap.AddCallerSkip(10000))
+			l.Info(wk.msg(), someFields(wk.g, 1)...)
+			l.Error(wk.msg())
+			return "Logger.WithOptions(AddCallerSkip beyond the stack)+log", ""
 		case 0:
 			o = zap.AddCallerSkip(1)
 		case 1:
